@@ -51,11 +51,13 @@ Analysis(arr) ==
         singles == {Cand("single", {i}) : i \in {i \in P(arr) \ absorbed :
                        ~\E c \in groups : i \in c.members /\ gspan[c] = Bases(arr.protos[i].extent)}}
         (* situations the statement does not pin down: two groups of different kinds with identical coordinates
-           (the code folds them into the stronger kind), and groups needing half the ring or more *)
+           (the code folds them into the stronger kind) *)
         coincide == \E a, b \in groups : a # b /\ gspan[a] = gspan[b]
         big == \E c \in ncomps : arr.circ /\ 2 * ShortestCoverLen(RA(arr), FootprintOfAll(RA(arr), {arr.protos[i].extent : i \in UNION c})) >= arr.L
     IN  [hyb |-> hyb, inter |-> inter, neigh |-> neigh, groups |-> groups, singles |-> singles,
-         loose |-> coincide]
+         (* ... and a group that occupies the whole ring: "identical coordinates" then depends on where the two-part form of
+            the whole ring is cut (join(2..L,1..1) and 1..L are the same bases) *)
+         loose |-> coincide \/ (arr.circ /\ \E c \in groups : Cardinality(gspan[c]) = arr.L)]
 BigGroup(arr, G) == arr.circ /\ 2 * ShortestCoverLen(RA(arr), FootprintOfAll(RA(arr), {arr.protos[i].extent : i \in G})) >= arr.L
 
 SeqSet(s) == {s[i] : i \in DOMAIN s}
